@@ -224,6 +224,16 @@ func check(id, tier string) int {
 			GoMode:  h.GoMode, MapRev: tc.MapRev, Timeout: tc.Timeout, MaxPaths: tc.MaxPaths, Samples: 3,
 			AllowBlocked: h.AllowBlocked, AllowPanic: h.AllowPanic, ReinitGlobals: h.ReinitGlobals, Seed: int64(seed),
 		}
+		// wall-clock cap per harness: a run that does not finish (path explosion
+		// on a changed tree, say) ends INCONCLUSIVE instead of running forever
+		capMin := 20
+		if tier == "thorough" {
+			capMin = 90
+		}
+		if v, err := strconv.Atoi(os.Getenv("VERIF_HARNESS_CAP_MIN")); err == nil && v > 0 {
+			capMin = v
+		}
+		spec.Deadline = time.Now().Add(time.Duration(capMin) * time.Minute)
 		if h.NativeReplay && os.Getenv("VERIF_NO_NATIVE_DIFF") == "" {
 			spec.NativeVectors = 16
 			if tier == "thorough" {
